@@ -176,6 +176,14 @@ def judge_malformed(data, cuts=()):
                 out.append(('C17:malformed-consumption', '%r left %r' % (data, left)))
             if got[0].encode() != data[:3]:
                 out.append(('C17:malformed-code', '%r -> %r' % (data, got)))
+            # the Reply object: a code that is not a reply code must be a bad reply, nothing else
+            sock2 = ScriptedSocket(cut(data, cuts))
+            try:
+                Reply().recv(IO(sock2, ('peer', 1)))
+            except BadReply:
+                pass
+            except Exception as e:
+                out.append(('C17:reply-recv-exception:%s' % type(e).__name__, '%r: %r' % (data, e)))
     elif verdict == 'invalid':
         if outcome != 'badreply':
             out.append(('C17:malformed-not-rejected:%s' % outcome, '%r -> %s' % (data, outcome)))
